@@ -562,7 +562,8 @@ where
 	{
 		async {
 			let batch = batch.build()?;
-			let id = self.id_manager.next_request_id();
+			// Every entry takes an id of its own, none of them is handed out to a later call.
+			let id = self.id_manager.next_request_ids(batch.len() as u64);
 			let id_range = generate_batch_id_range(id, batch.len() as u64)?;
 
 			let mut b = Batch::with_capacity(batch.len());
